@@ -121,9 +121,32 @@ class HarnessError(Exception):
     pass
 
 
+class CaseTimeout(BaseException):
+    pass
+
+
+def _alarm(signum, frame):
+    raise CaseTimeout()
+
+
 def safe_run(prop, case, drv):
+    import signal
+    limit = getattr(prop, 'case_timeout', None)
     try:
-        return prop.run(case, drv)
+        if limit:
+            signal.signal(signal.SIGALRM, _alarm)
+            signal.setitimer(signal.ITIMER_REAL, limit)
+        try:
+            return prop.run(case, drv)
+        finally:
+            if limit:
+                signal.setitimer(signal.ITIMER_REAL, 0)
+    except CaseTimeout:
+        # the real code (an optimiser, usually) did not finish within the per-case budget: the case is
+        # dropped and counted, never reported as a violation
+        r = Result()
+        r.features = ['case-timeout']
+        return r
     except DriverError as e:
         # The model could not execute the case: the correspondence does not check for it.
         r = Result()
